@@ -17,6 +17,10 @@ One connection (every run, any interleaving of the labels, any number of submitt
 * `write_deadline_never_armed`   the reader's calls are all `SetReadDeadline` (`repaired.readOnly`, checked on the
                                  configuration): the write deadline stays cleared in every run of the writer LTS, and in
                                  every reachable state of the reader LTS (`reader_never_arms_write_deadline`)
+* `repaired_is_the_source_layout`, `source_layout_readOnly`   that configuration is the source's: the ordered list of
+                                 `Set…Deadline` call sites regenerated from `ConnectToPanel` on every run
+                                 (`Gen.deadlineSites`: function, position in the loop structure, `SetReadDeadline` or
+                                 `SetDeadline`, zero time or now + constant) gives `repaired` under `Net.cfgOfSites`
 * `written_isPrefix`             what reached the wire is a prefix of the concatenation, in channel order, of the
                                  frames (lines + LF) of the lists taken; it is that concatenation minus the chunks not
                                  yet written unless a write returned an error; taken ++ pending = submitted
@@ -168,6 +172,16 @@ theorem winv_run (cfg : Cfg) (hro : cfg.readOnly = true) (m : Mode) (ls : List W
       rw [submitted_cons, ← List.append_assoc]; exact this
 
 theorem repaired_readOnly : repaired.readOnly = true := by decide
+
+/-- **the reader's deadline calls in the source are read-only**: the ordered list of `Set…Deadline` call sites regenerated
+from `ConnectToPanel` on this run is the configuration `repaired` (every call a `SetReadDeadline`); a `SetDeadline` at any
+of them (seeded changes C09-3, C09-4, C09-7) is another configuration and makes this fail -/
+theorem repaired_is_the_source_layout : cfgOfSites Gen.deadlineSites = some repaired := by decide
+
+theorem source_layout_readOnly : ∃ cfg, cfgOfSites Gen.deadlineSites = some cfg ∧ cfg.readOnly = true :=
+  ⟨repaired, repaired_is_the_source_layout, repaired_readOnly⟩
+
+example : (cfgOfSites (exampleSites.map (fun s => { s with fn := 1 }))).map Cfg.readOnly = some false := by decide
 theorem pinned_readOnly : pinned.readOnly = true := by decide
 
 /-- **the write deadline is never armed**: all `Set…Deadline` calls of the reader are `SetReadDeadline`
